@@ -67,7 +67,7 @@ fn main() {
         "C20" => {
             parts.push(make_part("sched-server", "SCHED", cli.cases(3_000, 200_000), || server::server_strategy(10, true), |_| (), |_, c| server::run_server_case("C20", c)));
             (
-                "part sched-server: the whole Server over the in-memory listener under virtual time: histories of 1-3 bursts of 1-10 connections (each answered, then closed) separated by idle phases of 5.2 / 6 s virtual time, then the server is dropped either with nothing outstanding or while the application holds a request that it answers afterwards; oracle: live library threads after an idle phase <= accept + 4, the next burst is still served, connect is refused after the drop, the held request's answer reaches the client, the accept thread ends; non-trivial: a burst > 4 or a drop with a request outstanding",
+                "part sched-server: the whole Server over the in-memory listener under virtual time: histories of 1-3 bursts of 1-10 connections (each answered, then closed) separated by idle phases of 5.2 / 6 s virtual time or by light traffic (single connections 2 s apart), then the server is dropped either with nothing outstanding or while the application holds a request that it answers afterwards; oracle: live library threads after an idle phase <= accept + 4, the next burst is still served, connect is refused after the drop, the held request's answer reaches the client, the accept thread ends; non-trivial: a burst > 4 or a drop with a request outstanding",
                 sched_assumptions,
             )
         }
@@ -80,7 +80,8 @@ fn main() {
         }
         "C12" => {
             parts.push(make_part("sched-mem", "SCHED", cli.cases(3_000, 150_000), || vcore::gen::c12_strategy(proptest::strategy::Just(vcore::conv::Transport::Mem).boxed()), |_| (), |_, c| convsched::mem_sched_verdict("C12", c, &|c, e, o| vcore::oracles::c12_oracle(c, e, o))));
-            ("part sched-mem: the C12 cases through the sequential in-memory engine under the controlled runtime (self-blocking = exact deadlock report)", sched_assumptions)
+            parts.push(make_part("sched-withheld-body", "SCHED", cli.cases(2_000, 100_000), convsched::c12_withheld_strategy, |_| (), |_, c| convsched::run_c12_withheld(c)));
+            ("part sched-mem: the C12 cases through the sequential in-memory engine under the controlled runtime (self-blocking = exact deadlock report); part sched-withheld-body: connection task and handler task under the controlled scheduler: the ending request (Connection: close / HTTP/1.0) has a streamed body the client has not finished sending, the application answers without reading, the client keeps its sending side open: all responses arrive and the server closes its sending side while the rest of the body is still withheld (otherwise exact deadlock report)", sched_assumptions)
         }
         "C18" => {
             parts.push(make_part("sched-mem", "SCHED", cli.cases(3_000, 150_000), || vcore::gen::c18_strategy(proptest::strategy::Just(vcore::conv::Transport::Mem).boxed()), |_| (), |_, c| convsched::mem_sched_verdict("C18", c, &|c, e, o| vcore::oracles::c18_oracle(c, e, o))));
